@@ -40,6 +40,7 @@ def main():
     sid = sys.argv[1]
     tier = 'quick'
     checks = [sid]
+    srcroot, suffix = '/tmp/seed', ''
     args = sys.argv[2:]
     while args:
         a = args.pop(0)
@@ -47,7 +48,11 @@ def main():
             tier = args.pop(0)
         elif a == '--check':
             checks.append(args.pop(0))
-    src = f'/tmp/seed/{sid}'
+        elif a == '--src':
+            srcroot = args.pop(0)
+        elif a == '--suffix':
+            suffix = args.pop(0)
+    src = f'{srcroot}/{sid}'
     notes = json.load(open(f'{src}/notes.json'))
     patch = f'{src}/patch.diff'
     demo = f'{src}/zz_seed_demo_test.go'
@@ -112,7 +117,7 @@ def main():
         run(['git', '-C', '/repo', 'clean', '-fdq'])
     meta['check_results'] = results
     meta['caught'] = any(r['exit'] == 1 for r in results.values())
-    dst = f'/verif/seeded/{sid}'
+    dst = f'/verif/seeded/{sid}{suffix}'
     os.makedirs(dst, exist_ok=True)
     shutil.copy(patch, f'{dst}/patch.diff')
     shutil.copy(demo, f'{dst}/zz_seed_demo_test.go')
